@@ -80,7 +80,7 @@ func c07Cases(level int) []SCase {
 				name := fmt.Sprintf("d%d%s/%s", depth, strings.Join(ls, ""), el.name)
 				ax := func(pos string) map[string]string { return map[string]string{"pos": pos, "leaf": name} }
 				cases = append(cases, SCase{ID: "C07/props/" + name, Cfg: baseCfg(), Axes: ax("props"),
-					Schema: J{"type": "object", "properties": J{"r": arr, "o": arr, "n": space.MakeNullable(arr, 0)}, "required": A{"r"}}})
+					Schema: J{"type": "object", "properties": J{"r": arr, "o": arr, "n": space.MakeNullable(arr, 0), "nr": space.MakeNullable(arr, 1)}, "required": A{"r", "nr"}}})
 				if depth <= 2 {
 					cases = append(cases, SCase{ID: "C07/def/" + name, Cfg: baseCfg(), Axes: ax("def"),
 						Schema: J{"type": "object", "properties": J{"d": J{"$ref": "#/$defs/D"}, "do": J{"$ref": "#/$defs/D"}}, "required": A{"d"}, "$defs": J{"D": arr}}})
